@@ -7,6 +7,7 @@ predictions realising it, calls the task function with the clips in case order (
 saves the fwd Evaluation with soundevent.io.save and loads it again (aoef), and records for every level
 the (term label, term name, value) lists and the scores.  Doubles travel as limb numbers.
 """
+import math
 import os
 import tempfile
 import warnings
@@ -81,11 +82,21 @@ def _truth_tags(case, it, T):
     return tags
 
 
+def _score(case, it, k):
+    """Score of class k: tick / unit, plus the tiny offset named by the item's fine code (spec/Metrics.tla, FineOf):
+    2 / 3: +4e-7 / +8e-7 (distinct float32 values); 1: below float32 resolution (+1e-9, or the next double)."""
+    base = it["s"][k] / case["u"]
+    f = it.get("f", [0] * case["C"])[k]
+    if f == 1:
+        return base + 1e-9 if case["style"] % 2 == 0 else math.nextafter(base, 2.0)
+    return base + (0.0, 0.0, 4e-7, 8e-7)[f]
+
+
 def _pred_tags(case, it, T):
     """Predicted tags realising the score ticks of item `it` (style 1: explicit zeros and an out-of-vocabulary tag;
     styles 2 / 3: a look-alike of one vocabulary tag, after the real ones, with a score that must not count)."""
     u, C = case["u"], case["C"]
-    out = [data.PredictedTag(tag=T[k], score=it["s"][k] / u)
+    out = [data.PredictedTag(tag=T[k], score=_score(case, it, k))
            for k in range(C) if it["s"][k] or case["style"] == 1]
     rest = (u - sum(it["s"])) / u if case["task"] != "cml" else 0.75
     if case["style"] == 1:
@@ -291,6 +302,22 @@ def random_cases(rng, tier):
                     left -= k
                 rng.shuffle(s)
                 items.append({"t": rng.randrange(C + 1), "y": [], "s": s})
+        if task in ("cml", "sed") and not tied:
+            # near-equal scores: half of these problems give two items the same tick on one class and separate them (or
+            # not) by a tiny offset; the rest sprinkle offsets at random
+            for it in items:
+                it["f"] = [rng.choice([0, 0, 0, 1, 2, 3]) if 0 < it["s"][k] < u and (task == "cml" or sum(it["s"]) < u) else 0
+                           for k in range(C)]
+            if n >= 2 and rng.random() < 0.5:
+                a, b = rng.sample(range(n), 2)
+                k = rng.randrange(C)
+                tick = rng.randrange(1, u)
+                for it, code in ((items[a], rng.choice([2, 3, 1])), (items[b], rng.choice([0, 0, 2]))):
+                    if task == "cml" or sum(it["s"]) - it["s"][k] + tick < u:
+                        it["s"][k] = tick
+                        it["f"][k] = code
+                    else:
+                        it["f"][k] = 0 if it["s"][k] == 0 or sum(it["s"]) >= u else it["f"][k]
         if task == "sed":
             for it in items:
                 it["m"] = "both" if tied else rng.choice(["both", "both", "both", "pred", "ann", "pred", "ann", "pred0", "ann0"])
